@@ -15,3 +15,6 @@ def run_proofs(ctx):
     run_contracts(ctx, cs, reg, workloads=c15.workloads(), concrete_env=c15.CONCRETE_ENV)
     reg2, cs2 = c01.build()
     run_contracts(ctx, cs2, reg2, workloads=c01.workloads(), concrete_env=c01.CONCRETE_ENV)
+    from vf.proofs.small import run_small
+
+    run_small(ctx, "C14")
